@@ -2,6 +2,7 @@
 # Runs the repository's pinned test suite with the verif guard OFF (no tag, no overlay) and
 # checks that every test of BASELINE.json's stable_pass list passes.
 export GOFLAGS=-mod=mod GOPROXY=off GOSUMDB=off GOTOOLCHAIN=local
+command -v lz4 >/dev/null 2>&1 || export PATH=$PATH:/root/miniconda/bin  # TestWriterLegacyCommand skips without the lz4 CLI
 REPO=${1:-/repo}
 cd "$REPO" || exit 2
 GOMAXPROCS=8 go test -json -vet=off -count=1 -timeout 25m ./... > /verif/.build/baseline.$$.json 2>/dev/null
